@@ -128,9 +128,45 @@ func vxSweepCheck(rep *mc.Report, root SpeedCurve, s sensors.Sensor, grid []int)
 	}()
 	prev, prevT := 0, 0
 	var rises int64
+	vals := make([]int, len(grid))
+	defer func() {
+		if f != nil || len(grid) < 3 {
+			return
+		}
+		// second pass over the SAME curve objects in a non-monotone visiting order (downwards in strides of 5, then
+		// upwards in strides of 7 from an offset): the value at a temperature must be the one the ascending sweep saw
+		// there, otherwise some pair T1 <= T2 of this walk has v(T1) > v(T2) (values that depend on the visiting history)
+		var order []int
+		for k := len(grid) - 1; k >= 0; k -= 5 {
+			order = append(order, k)
+		}
+		for k := 3; k < len(grid); k += 7 {
+			order = append(order, k)
+		}
+		lastK := -1
+		for _, k := range order {
+			s.SetMovingAvg(float64(grid[k]))
+			v, err := root.Evaluate()
+			rep.Evaluations++
+			if err != nil {
+				f = &vxFail{"error", fmt.Sprintf("Evaluate at %d m-degree returned error: %v", grid[k], err)}
+				return
+			}
+			if v != vals[k] {
+				from := "the start of the walk"
+				if lastK >= 0 {
+					from = fmt.Sprintf("%d m-degree", grid[lastK])
+				}
+				f = &vxFail{"not monotone", fmt.Sprintf("temperature walk down and up again: coming from %s, %d m-degree -> %d, but the ascending sweep over the same curve gave %d there (the value depends on the visiting history, so hotter can mean slower)", from, grid[k], v, vals[k])}
+				return
+			}
+			lastK = k
+		}
+	}()
 	for k, t := range grid {
 		s.SetMovingAvg(float64(t))
 		v, err := root.Evaluate()
+		vals[k] = v
 		rep.Evaluations++
 		if err != nil {
 			return &vxFail{"error", fmt.Sprintf("Evaluate at %d m-degree returned error: %v", t, err)}
